@@ -28,6 +28,20 @@ def rng(v, n):
     return (v, v)
 
 
+def _sexpr_pairs(txt):
+    """'((a 1) (b (- 2)))' -> [('a', '1'), ('b', '(- 2)')] (top-level pairs of a get-value answer, texts kept verbatim)"""
+    toks = re.findall(r'\|[^|]*\||\(|\)|[^\s()]+', txt)
+    def rd(i):
+        if toks[i] != '(': return toks[i], i + 1
+        parts = []; i += 1
+        while toks[i] != ')':
+            x, i = rd(i); parts.append(x)
+        return parts, i + 1
+    def show(x): return x if isinstance(x, str) else '(' + ' '.join(show(y) for y in x) + ')'
+    tree, _ = rd(0)
+    return [(show(p[0]), show(p[1])) for p in tree]
+
+
 class OpaqueF:
     """floating-point value the harness does not reason about (fresh, unconstrained)"""
     pass
@@ -129,7 +143,7 @@ class Interp:
         self.m = mod; self.mode = mode; self.L = Layout()
         self.models = {}; self.overrides = {}
         self.step_cap = step_cap
-        self.solver = z3.Solver(); self.solver.set('timeout', int(os.environ.get('VERIF_QUERY_TIMEOUT_MS', '90000')))
+        self.solver = z3.Solver(); self.set_query_timeout(90)
         self.stats = dict(paths=0, queries=0, solver_s=0.0, funcs=set(), findings=[], steps=0, unsupported=[])
         self.ti_base = {}
         self.symcount = 0
@@ -139,6 +153,10 @@ class Interp:
         self.inputs = {}; self.observations = []
 
     # ------------------------------------------------------------ z3 helpers
+    def set_query_timeout(self, seconds):
+        """limit of the first (incremental z3) attempt at a query; what it leaves undecided goes to cvc5 and then to a fresh z3 (check())"""
+        self.solver.set('timeout', int(os.environ.get('VERIF_QUERY_TIMEOUT_MS') or seconds * 1000))
+
     def fresh(self, name, n):
         self.symcount += 1
         nm = '%s!%d' % (name, self.symcount)
@@ -207,17 +225,98 @@ class Interp:
         r = self.solver.check(*([extra] if extra is not None else []))
         dt = time.time() - t; self.stats['solver_s'] += dt
         if dt > float(os.environ.get('VERIF_SLOWQ') or 1e9):
+            if os.environ.get('VERIF_DUMPQ'):           # debugging aid: the slow query as a stand-alone SMT-LIB file
+                d_ = z3.Solver(); d_.add(*self.solver.assertions())
+                if extra is not None: d_.add(extra)
+                open(os.path.join(os.environ['VERIF_DUMPQ'], 'q-%d-%d.smt2' % (os.getpid(), self.stats['queries'])), 'w').write('; %.1fs %s\n%s(check-sat)\n' % (dt, r, d_.to_smt2()))
             sys.stderr.write('SLOW QUERY %.1fs result=%s extra=%s\n  pc=%s\n' % (dt, r, extra, [str(c)[:200] for c in self.pc][-12:]))
         if r == z3.unknown:
-            # retry once from scratch (fresh solver, whole path condition) before giving up on the path
-            s2 = z3.Solver(); s2.set('timeout', 240000)
-            for c in self.solver.assertions(): s2.add(c)
-            if extra is not None: s2.add(extra)
-            t = time.time(); r = s2.check(); self.stats['solver_s'] += time.time() - t; self.stats['retries'] = self.stats.get('retries', 0) + 1
-            if r == z3.unknown: raise Unsupported('solver unknown (%s)' % s2.reason_unknown())
-            self.msrc = s2
+            # second opinions before giving up on the path, all on the same query (whole path condition + extra) from scratch: cvc5 in a sub-process
+            # and, beside it, a fresh z3; then the rest of cvc5's time limit; then a fresh z3 with a long limit.  z3's nonlinear integer arithmetic
+            # answers at once or not at all depending on incidental term order and solver history, and cvc5 decides in well under a second some
+            # queries no z3 run decides, and vice versa (measured, DESIGN section 7).  Only sat / unsat count as an answer.
+            t = time.time(); job = None; last = ''
+            try:
+                job = self.cvc5_start(extra)
+                for stage, limit in (('fresh-z3', 30000), ('cvc5', None), ('fresh-z3-long', 240000)):
+                    if stage == 'cvc5':
+                        r2 = self.cvc5_finish(job); job = None
+                        if r2 is None: continue
+                        r, self.msrc = r2
+                    else:
+                        s2 = z3.Solver(); s2.set('timeout', limit)
+                        for c in self.solver.assertions(): s2.add(c)
+                        if extra is not None: s2.add(extra)
+                        r = s2.check(); self.msrc = s2
+                        if r == z3.unknown: last = s2.reason_unknown(); continue
+                    self.stats['retries'] = self.stats.get('retries', 0) + 1
+                    if stage == 'cvc5': self.stats['cvc5_decided'] = self.stats.get('cvc5_decided', 0) + 1
+                    return r == z3.sat
+                raise Unsupported('solver unknown (%s)' % last)
+            finally:
+                self.stats['solver_s'] += time.time() - t
+                if job is not None: self.cvc5_finish(job, kill=True)
         else: self.msrc = self.solver
         return r == z3.sat
+
+    CVC5 = '/usr/bin/cvc5'
+
+    def cvc5_start(self, extra, limit_s=120):
+        """hand the current path condition (+ extra) to the cvc5 binary (runs beside this process); returns a job for cvc5_finish, or None"""
+        import subprocess, tempfile
+        if not os.path.exists(self.CVC5) or os.environ.get('VERIF_NO_CVC5'): return None
+        asserts = list(self.solver.assertions()) + ([extra] if extra is not None else [])
+        d = z3.Solver(); d.add(*asserts)
+        consts = {}; todo = list(asserts); seen = set()
+        while todo:
+            e = todo.pop()
+            if e.get_id() in seen: continue
+            seen.add(e.get_id())
+            if z3.is_const(e) and e.decl().kind() == z3.Z3_OP_UNINTERPRETED:
+                if z3.is_int(e) or z3.is_real(e) or z3.is_bv(e) or z3.is_bool(e): consts[e.decl().name()] = e
+            elif z3.is_app(e): todo.extend(e.children())
+            elif z3.is_quantifier(e): return None
+        names = sorted(consts)
+        txt = '(set-logic ALL)\n(set-option :produce-models true)\n' + d.to_smt2()
+        if names: txt += '(get-value (%s))\n' % ' '.join(consts[k].sexpr() for k in names)
+        f = tempfile.NamedTemporaryFile('w', suffix='.smt2', prefix='llsym-cvc5-', delete=False)
+        f.write(txt); f.close()
+        try: proc = subprocess.Popen([self.CVC5, '--lang=smt2', '--tlimit=%d' % (limit_s * 1000), f.name], stdout=subprocess.PIPE, stderr=subprocess.DEVNULL, text=True)
+        except OSError:
+            os.unlink(f.name); return None
+        return dict(proc=proc, file=f.name, asserts=asserts, consts=consts, names=names, deadline=time.time() + limit_s + 20)
+
+    def cvc5_finish(self, job, kill=False):
+        """verdict of a cvc5 job: (z3.unsat, None), (z3.sat, solver holding a z3 model built from cvc5's values and confirmed by z3), or None
+        (no verdict: unknown, time limit, parse problem, model not confirmed)"""
+        import subprocess
+        if job is None: return None
+        proc = job['proc']; out = ''
+        try:
+            if kill: proc.kill()
+            try: out = proc.communicate(timeout=max(1, job['deadline'] - time.time()))[0]
+            except subprocess.TimeoutExpired:
+                proc.kill(); proc.communicate(); return None
+        finally:
+            try: os.unlink(job['file'])
+            except OSError: pass
+        if kill: return None
+        asserts, consts, names = job['asserts'], job['consts'], job['names']
+        lines = out.strip().split('\n', 1)
+        verdict = lines[0].strip() if lines else ''
+        if verdict == 'unsat': return (z3.unsat, None)
+        if verdict != 'sat': return None
+        s2 = z3.Solver(); s2.set('timeout', 60000); s2.add(*asserts)
+        if names:
+            body = lines[1] if len(lines) > 1 else ''
+            if '(error' in body: return None
+            try:
+                vals = _sexpr_pairs(body)
+                for nm_txt, val_txt in vals:
+                    s2.add(*z3.parse_smt2_string('(assert (= %s %s))' % (nm_txt, val_txt), decls={k: consts[k] for k in names}))
+            except Exception: return None
+        if s2.check() != z3.sat: return None              # cvc5's assignment is accepted only if z3 evaluates the whole query to true under it
+        return (z3.sat, s2)
 
     def get_model(self):
         """model of the last satisfiable check()"""
@@ -627,6 +726,13 @@ class Interp:
                 q = z3.If(s >= 0, s / sb, -((-s) / sb))
                 return Sym(self.canon_t(q if op == 'sdiv' else s - q * sb, n), n)
             if op == 'ashr':
+                if 0 < b < n:
+                    # sign extension idioms on packed words, kept free of div/mod terms: ashr(shl(v, b), b) == sext(trunc(v, n - b));
+                    # ashr(hi << b | lo, b) == sext(hi) when hi is an (n - b)-bit value
+                    m = n - b
+                    if a.src and a.src[0] == 'shl' and a.src[2] == b: return self.sext(self.trunc(a.src[1], n, m), m, n)
+                    if a.parts and a.parts[2] == b and a.parts[0] is not None and (not isinstance(a.parts[0], Sym) or a.parts[0].hi < (1 << m)):
+                        return self.sext(self.trunc(a.parts[0], n, m), m, n)
                 s = self.signed_t(x, n); return Sym(self.canon_t(z3.If(s >= 0, s / (1 << b), -((-s + (1 << b) - 1) / (1 << b))), n), n)
             if op == 'or' and b == 0: return a
             if op == 'or' and a.tz and b < (1 << a.tz):             # (hi << k) | constant low part: disjoint, exact as a sum
